@@ -15,7 +15,7 @@ import json
 import random
 
 from vsim import gen as G
-from vsim.core import RunResult
+from vsim.core import RunResult, task_exc
 from vsim.gw import GwWorld, gc_paused, snapshot_nodes
 from vsim.gwrun import restore_nodes
 from vsim.pworld import PATH, PWorld, legacy_image, snapshot
@@ -159,9 +159,9 @@ def _run_session(scn) -> RunResult:
                 loaded: dict = {}
                 t = w.loop.create_task(Persistence(loaded, "/sim/check.json").load())
                 w.loop.run_until_idle(20)
-                if not t.done() or t.exception() is not None:
+                if not t.done() or task_exc(t) is not None:
                     res.violate(PROP, "load-of-save", f"saved-file-rejected:{label}",
-                                f"{t.exception() if t.done() else 'hang'!r} image={bytes(img)[:200]!r}")
+                                f"{task_exc(t) if t.done() else 'hang'!r} image={bytes(img)[:200]!r}")
                 elif snapshot(loaded) != want:
                     res.violate(PROP, "load-of-save", f"registry-differs:{label}",
                                 f"live registry {want} file loads to {snapshot(loaded)}"[:700])
@@ -173,8 +173,8 @@ def _run_session(scn) -> RunResult:
                 elif op[0] == "save":
                     t = w.loop.create_task(w.gateway.persistence.save())
                     w.loop.run_until_idle(20)
-                    if not t.done() or t.exception() is not None:
-                        res.violate(PROP, "save", "own-persistence-save-failed", repr(t.exception() if t.done() else "hang")[:200])
+                    if not t.done() or task_exc(t) is not None:
+                        res.violate(PROP, "save", "own-persistence-save-failed", repr(task_exc(t) if t.done() else "hang")[:200])
                         continue
                     saves += 1
                     check("own-save")
